@@ -119,10 +119,10 @@ func (m *Apply) Indices() []uint64 {
 // C02: election safety.
 
 type Leader struct {
-	byTerm   map[uint64]string
-	conf     map[uint64]string // configuration the first leader of the term was in
-	pending  *common.Violation
-	Elected  int
+	byTerm  map[uint64]string
+	conf    map[uint64]string // configuration the first leader of the term was in
+	pending *common.Violation
+	Elected int
 }
 
 func (m *Leader) Attach(c *sim.Cluster) {
@@ -196,11 +196,11 @@ func (m *Leader) Mem(b *bytes.Buffer) {
 // C07: leader completeness (and the committed set other monitors use).
 
 type Commit struct {
-	committed map[uint64]string // index -> canonical entry
-	maxIdx    uint64
-	commitTerm map[uint64]uint64      // index -> term of the node on which it was first seen committed
-	leading   map[int]uint64          // node -> term it is currently seen leading
-	held      map[int]map[uint64]bool // node -> committed indices it held while leading
+	committed  map[uint64]string // index -> canonical entry
+	maxIdx     uint64
+	commitTerm map[uint64]uint64       // index -> term of the node on which it was first seen committed
+	leading    map[int]uint64          // node -> term it is currently seen leading
+	held       map[int]map[uint64]bool // node -> committed indices it held while leading
 }
 
 func (m *Commit) Attach(c *sim.Cluster) {
@@ -317,7 +317,7 @@ func (m *Commit) Mem(b *bytes.Buffer) {
 type LogMatch struct{}
 
 func (m *LogMatch) Attach(c *sim.Cluster) {}
-func (m *LogMatch) Mem(b *bytes.Buffer)    {}
+func (m *LogMatch) Mem(b *bytes.Buffer)   {}
 
 func (m *LogMatch) Step(c *sim.Cluster) *common.Violation {
 	for i := 0; i < len(c.Nodes); i++ {
@@ -362,11 +362,11 @@ func (m *LogMatch) Step(c *sim.Cluster) *common.Violation {
 // prevote inert.
 
 type TermVote struct {
-	maxTerm map[int]uint64
-	granted map[[2]uint64]string // (node, term) -> candidate
+	maxTerm  map[int]uint64
+	granted  map[[2]uint64]string // (node, term) -> candidate
 	stBefore []sim.StateDisk
-	pending *common.Violation
-	Grants  int
+	pending  *common.Violation
+	Grants   int
 }
 
 func (m *TermVote) Attach(c *sim.Cluster) {
